@@ -75,6 +75,7 @@ class Case:
     data: Any = None  # whatever impl()/oracle() need (must be JSON-serialisable for replays)
     kind: str = "gen"  # histogram bucket (branch / shape of the case)
     nontrivial: bool = True
+    orig: Optional[str] = None  # the generator's line, before impl() possibly rewrote `line` into the model request
 
     def key(self) -> str:
         return hashlib.sha1(self.line.encode()).hexdigest()[:16]
@@ -334,6 +335,16 @@ def load_known_findings(pid: str) -> tuple[list[tuple[str, str]], list[str]]:
 # pipeline
 
 
+def _case_json(c: Case) -> dict:
+    """a case as it must be fed back to generate a replay: the generator's own line and data
+    (keys starting with `_` are scratch values written by impl()), plus the final model request"""
+    data = c.data
+    if isinstance(data, dict):
+        data = {k: v for k, v in data.items() if not str(k).startswith("_")}
+    return {"line": c.orig if c.orig is not None else c.line, "data": data, "kind": c.kind,
+            "request": (c.line or "")[:4000]}
+
+
 def load_corpus(pid: str) -> list[Case]:
     d = CORPUS_DIR / pid
     cases = []
@@ -418,7 +429,7 @@ def run_check(prop: Property, tier: str, seed: int, replay: Optional[str] = None
     if replay:
         j = json.loads(Path(replay).read_text())
         for c in j.get("cases", []):
-            cases.append(Case(line=c["line"], data=c.get("data"), kind="replay"))
+            cases.append(Case(line=c["line"], data=c.get("data"), kind=c.get("kind", "replay")))
     else:
         cases += load_corpus(pid)
         try:
@@ -433,6 +444,7 @@ def run_check(prop: Property, tier: str, seed: int, replay: Optional[str] = None
     impl_results: list[str] = []
     for c in cases:
         hist[c.kind] = hist.get(c.kind, 0) + 1
+        c.orig = c.line
         try:
             r = prop.impl(c)
         except Exception as e:
@@ -511,10 +523,10 @@ def run_check(prop: Property, tier: str, seed: int, replay: Optional[str] = None
     rc = 0
     nviol = 0
     for i, f in enumerate(new_failures[:10]):
-        path = REPLAY_DIR / f"{pid}-{seed}-{i}.json"
+        path = REPLAY_DIR / (f"{pid}-replayed-{i}.json" if replay else f"{pid}-{seed}-{i}.json")
         path.write_text(json.dumps({
             "property": pid, "key": f.key, "what": f.what, "seed": seed, "tier": tier,
-            "cases": [{"line": f.case.line, "data": f.case.data}] if f.case else [],
+            "cases": [_case_json(f.case)] if f.case else [],
             "extra": f.extra, "broken_ties": reasons,
             "rerun": f"./check {pid} --replay {path}",
         }, indent=1, default=str))
@@ -525,11 +537,11 @@ def run_check(prop: Property, tier: str, seed: int, replay: Optional[str] = None
         # a tie is broken and no *new* failing input was found
         known_only = bool(failures) and not mismatches and all("lean build" not in r and "translator" not in r for r in reasons)
         if not known_only:
-            path = REPLAY_DIR / f"{pid}-{seed}-tie.json"
+            path = REPLAY_DIR / (f"{pid}-replayed-tie.json" if replay else f"{pid}-{seed}-tie.json")
             path.write_text(json.dumps({
                 "property": pid, "broken_ties": reasons,
                 "build_errors": cov.get("build_log_tail", "")[-3000:],
-                "cases": [{"line": m.case.line, "data": m.case.data, "model": m.model[:2000], "impl": m.impl[:2000]} for m in mismatches[:10]],
+                "cases": [dict(_case_json(m.case), model=m.model[:2000], impl=m.impl[:2000]) for m in mismatches[:10]],
                 "note": "the theorem or correspondence named above no longer checks; no failing input found",
                 "seed": seed, "tier": tier,
             }, indent=1, default=str))
